@@ -134,6 +134,8 @@ func TestVerifC16(t *testing.T) {
 		{asset: "testpic_2s", mpd: "Manifest.mpd", cfg: "segtimeline_1", testNowMS: 31999, steps: 5, user: "u1", pass: "secret"},
 		{asset: "testpic_2s", mpd: "Manifest.mpd", cfg: "", testNowMS: 100500, duration: 8, steps: 4},
 		{asset: "testpic_2s", mpd: "Manifest.mpd", cfg: "snr_7", testNowMS: 64000, duration: 4, steps: 2, streams: true},
+		{asset: "testpic_2s", mpd: "Manifest.mpd", cfg: "", testNowMS: 84000, duration: 1, steps: 1},              // shorter than one segment: nothing but the inits
+		{asset: "testpic_6s", mpd: "Manifest.mpd", cfg: "segtimeline_1", testNowMS: 61000, duration: 7, steps: 3}, // one segment, marked as last
 		{asset: "testpic_8s", mpd: "Manifest.mpd", cfg: "", testNowMS: 1_700_000_003_000, steps: 3},
 		{asset: "testpic_6s", mpd: "Manifest.mpd", cfg: "segtimeline_1", testNowMS: 60000, duration: 12, steps: 2},
 		{asset: "testpic_2s", mpd: "Manifest.mpd", cfg: "timesubsstpp_en", testNowMS: 100500, steps: 3},
